@@ -1,0 +1,113 @@
+//go:build verif
+
+// Verification contracts for the console's session gate and login rate limiter (C38; comment-only; read by
+// /verif/govc). This file contains no executable code.
+// time.Time is a point tinst(t) on an integer nanosecond line (spec/time_ops.spec).
+
+package console
+
+// ---- the gate ---------------------------------------------------------------------------------------------------
+// The wrapped handler runs only after hasValidSession answered true for this very request (and auth is enabled),
+// with the caller's writer and request; the two rejections carry 503 and 401.
+//@ func (a *authManager) requireAuth$1
+//@   ghost gvalid bool = false
+//@   ghost gasked int = 0
+//@   at hasValidSession#1 before assert [C38.session_checked_for_this_request] arg0 == r
+//@   at hasValidSession#1 after set gvalid = ret0
+//@   at hasValidSession#1 after set gasked = gasked + 1
+//@   at next#1 before assert [C38.handler_only_with_live_session] gasked == 1 && gvalid && (*a).enabled
+//@   at next#1 before assert [C38.handler_gets_the_request] arg0 == w && arg1 == r
+//@   at Error#1 before assert [C38.disabled_is_503] arg2 == 503 && !(*a).enabled
+//@   at Error#2 before assert [C38.no_session_is_401] arg2 == 401 && gasked == 1 && !gvalid
+
+// hasValidSession: true only for a non-empty cookie token that is a key of the session table with an expiry not
+// before now (gnow = the instant time.Now returned inside the call); the check never adds or alters a session; an
+// expired one is removed.
+//@ func (a *authManager) hasValidSession
+//@   ghost gtok string = ""
+//@   ghost gok bool = false
+//@   ghost gnow Int = 0
+//@   at sessionToken#1 after set gtok = ret0
+//@   at sessionToken#1 after set gok = ret1
+//@   at Now#1 after set gnow = tinst(ret0)
+//@   ensures [C38.valid_means_live_session] result ==> gok && gtok != "" && old(has(a.sessions, gtok)) && gnow <= tinst(old(a.sessions[gtok]))
+//@   ensures [C38.check_never_adds_sessions] forall k string :: has(a.sessions, k) ==> old(has(a.sessions, k)) && a.sessions[k] == old(a.sessions[k])
+//@   ensures [C38.expired_session_removed] !result && gok && old(has(a.sessions, gtok)) ==> !has(a.sessions, gtok)
+//@   ensures [C38.table_identity_kept] a.sessions == old(a.sessions)
+
+//@ func (a *authManager) sessionToken
+//@   ensures [C38.token_is_nonempty_cookie] result1 ==> result0 != ""
+
+//@ func (a *authManager) validCredentials
+//@   exact_strings
+//@   ensures [C38.credentials_match_configured] result ==> username != "" && password != "" && username == a.username && password == a.password
+
+// handleLogin: the only place a session is created. The entry is written only for a POST that the rate limiter
+// admitted, whose credentials matched, under the token generateToken just returned (without error), with expiry
+// now + ttl.
+//@ func (a *authManager) handleLogin
+//@   ghost gallowed bool = true
+//@   ghost gcred bool = false
+//@   ghost gtoken string = ""
+//@   ghost gtokerr error = nil
+//@   ghost gnow Int = 0
+//@   at Allow#1 after set gallowed = ret0
+//@   at validCredentials#1 after set gcred = ret0
+//@   at generateToken#1 after set gtoken = ret0
+//@   at generateToken#1 after set gtokerr = ret1
+//@   at Now#1 after set gnow = tinst(ret0)
+//@   at writeJSON#* havoc
+//@   at remoteIP#* havoc
+//@   at NewDecoder#1 before assert [C38.login_requires_enabled_auth_and_post] a.enabled && r.Method == "POST" && gallowed
+//@   at mapupdate#1 before assert [C38.session_only_after_successful_login] gallowed && gcred && gtokerr == nil && key == gtoken && tinst(value) == gnow + a.ttl
+
+// handleLogout: the presented token is no longer a session when the response is written.
+//@ func (a *authManager) handleLogout
+//@   ghost gtok string = ""
+//@   ghost gok bool = false
+//@   at sessionToken#1 after set gtok = ret0
+//@   at sessionToken#1 after set gok = ret1
+//@   at writeJSON#* havoc
+//@   at SetCookie#1 before assert [C38.logout_removes_session] gok ==> !has(a.sessions, gtok)
+
+// ---- the route table --------------------------------------------------------------------------------------------
+// Every pattern registered under /ui/api/ other than /ui/api/auth/... receives the closure the immediately
+// preceding requireAuth call returned.
+//@ func NewMux
+//@   ghost glast int = 0
+//@   at StaticHandler#* havoc
+//@   at requireAuth#* after set glast = ret0
+//@   at HandleFunc#* before assert [C38.protected_routes_wrapped] hasPrefix(arg0, "/ui/api/") && !hasPrefix(arg0, "/ui/api/auth/") ==> arg1 == glast && glast != 0
+
+// ---- the login rate limiter -------------------------------------------------------------------------------------
+// hits[key] holds, oldest first, the instants of the admitted attempts of this key that are still inside the
+// window. Quantified facts are stated over absolute positions of the backing array (see pkg/broker C25 contracts).
+//@ spec func inH(s []time.Time, p int) bool = off(s) <= p && p < off(s) + len(s)
+//@ spec func hAt(s []time.Time, p int) time.Time = s[p - off(s)]
+//@ spec func hitsSorted(s []time.Time) bool = forall p int, q int :: inH(s, p) && inH(s, q) && p <= q ==> tinst(hAt(s, p)) <= tinst(hAt(s, q))
+
+// Allow(key), for the slice recorded under this key (assumed in time order and at most limit long at entry, both of which
+// every Allow call re-establishes for it; the clock is assumed not to run backwards with respect to the newest recorded hit):
+//  - exactly the leading hits that are not newer than now-window are dropped, the others are kept in order;
+//  - the attempt is admitted iff fewer than limit hits remain; an admitted attempt is recorded (at instant now),
+//    a denied one is not;
+//  - so after the call at most limit hits are on record and all of them are inside (now-window, now].
+//@ func (l *loginRateLimiter) Allow
+//@   nullable l
+//@   rep_invariant l != nil ==> l.limit > 0 && l.limit <= 1048576 && l.window > 0 && l.window <= 4611686018427387904 && hitsSorted(l.hits[key]) && len(l.hits[key]) <= l.limit && l.hits != nil
+//@   ghost gnow Int = 0
+//@   at Now#1 after set gnow = tinst(ret0)
+//@   at Now#1 after assume l != nil && len(l.hits[key]) > 0 ==> tinst(ret0) >= tinst(l.hits[key][len(l.hits[key])-1])
+//@   ensures [C38.no_limiter_admits] l == nil ==> result
+//@   ensures [C38.admitted_iff_window_not_full] l != nil ==> (let kept = len(l.hits[key]) - ite(result, 1, 0) in (0 <= kept && kept <= old(len(l.hits[key])) && result == (kept < l.limit)))
+//@   ensures [C38.at_most_limit_on_record] l != nil ==> len(l.hits[key]) <= l.limit
+//@   ensures [C38.recorded_hits_inside_window] l != nil ==> (forall p int :: inH(l.hits[key], p) ==> tinst(hAt(l.hits[key], p)) > gnow - l.window)
+//@   ensures [C38.recorded_hits_not_in_future] l != nil ==> (forall p int :: inH(l.hits[key], p) ==> tinst(hAt(l.hits[key], p)) <= gnow)
+//@   ensures [C38.admitted_attempt_recorded] l != nil && result ==> len(l.hits[key]) >= 1 && tinst(l.hits[key][len(l.hits[key])-1]) == gnow
+//@   ensures [C38.kept_hits_are_the_unexpired_tail] l != nil ==> (let kept = len(l.hits[key]) - ite(result, 1, 0) in (let k = old(len(l.hits[key])) - kept in ((forall j int :: 0 <= j && j < kept ==> l.hits[key][j] == old(l.hits[key][j+k])) && (forall j int :: 0 <= j && j < k ==> tinst(old(l.hits[key][j])) <= gnow - l.window))))
+//@   ensures [C38.hits_stay_sorted] l != nil ==> hitsSorted(l.hits[key]) && l.limit == old(l.limit) && l.window == old(l.window)
+//@   loop 1 invariant -1 <= rangeindex && rangeindex < len(hits) && 0 <= idx && idx <= rangeindex + 1 && sameSlice(hits, old(l.hits[key])) && l != nil && tinst(cutoff) == gnow - l.window && l.limit == old(l.limit) && l.window == old(l.window) && l.hits == old(l.hits)
+//@   loop 1 invariant forall p int :: off(hits) <= p && p < off(hits) + (rangeindex + 1 - idx) ==> tinst(old(hAt(l.hits[key], p))) <= tinst(cutoff)
+//@   loop 1 invariant forall p int :: off(hits) <= p && p < off(hits) + idx ==> hAt(hits, p) == old(hAt(l.hits[key], p + (rangeindex + 1 - idx)))
+//@   loop 1 invariant forall p int :: off(hits) + rangeindex + 1 <= p && p < off(hits) + len(hits) ==> hAt(hits, p) == old(hAt(l.hits[key], p))
+//@   loop 1 invariant idx > 0 ==> tinst(old(hAt(l.hits[key], off(hits) + (rangeindex + 1 - idx)))) > tinst(cutoff)
